@@ -8,6 +8,7 @@ package main
 import (
 	"encoding/json"
 	"fmt"
+	"os"
 	"runtime"
 	"sort"
 	"strings"
@@ -61,7 +62,7 @@ func run(c *lib.Ctx) {
 	c.Assume("close clause restated as bounded: a call outstanding when Close returns must return within 10 s on an otherwise idle child (goroutine dump attached when it does not)",
 		"Close() of a client that never subscribed is a documented no-op (client.Close returns early) and is not counted as a close",
 		"each client is closed by one goroutine only and its subscriber keeps draining Recv() until it is closed (the usage pattern of every chain33 module)",
-		"race reports decide only when both accesses are in /repo/queue/")
+		"race reports decide only when both accesses are in <repo>/queue/")
 	nCases := c.N(30, 400)
 	reps := 3
 	if !c.Quick() {
@@ -95,7 +96,7 @@ func run(c *lib.Ctx) {
 		in := caseIn{Idx: j.idx, Reps: reps, Seed: rng.U64(), Kind: kindOf(rng, j.idx), Tier: c.Tier, Bound: 10000}
 		res := c.Child("run", in, lib.ChildOpts{Race: true, Timeout: 8 * time.Minute})
 		reports := lib.ParseRaceLogs(res.RaceLogs)
-		dec, oth := lib.RaceVerdict(reports, []string{"/repo/queue/"})
+		dec, oth := lib.RaceVerdict(reports, []string{repoRoot() + "/queue/"})
 		mu.Lock()
 		defer mu.Unlock()
 		c.Count("children", 1)
@@ -172,6 +173,13 @@ func run(c *lib.Ctx) {
 	c.RequireEvents("outstanding_at_close", 10)
 	c.RequireEvents("closes_client", 5)
 	c.RequireEvents("closes_queue", 3)
+}
+
+func repoRoot() string {
+	if r := os.Getenv("VERIF_REPO"); r != "" {
+		return r
+	}
+	return "/repo"
 }
 
 func raceKeyShape(k string) string {
